@@ -536,11 +536,24 @@ func main() {
 				runs++
 				record(s, m, c, c.dev, c.spoc, r)
 			}
-		} else if c.model == "ASA" || c.model == "IOS" || c.model == "Linux" {
-			// netspoc text used as raw file as well (raw files share the syntax)
-			s, m := run(c.model, c.dev, c.spoc, c.spoc)
-			runs++
-			record(s, m, c, c.dev, c.spoc, c.spoc)
+		} else {
+			// no raw file in the test case: the netspoc text as raw file (raw files
+			// share the syntax) and structurally minimal raw files
+			raws := []string{c.spoc}
+			switch c.model {
+			case "PAN-OS":
+				raws = append(raws, "<config></config>", "<config><devices></devices></config>", "<config><devices><entry></entry></devices></config>",
+					"<config><devices><entry><vsys></vsys></entry></devices></config>", "<config><devices><entry><vsys><entry></entry></vsys></entry></devices></config>", "<x/>", "garbage")
+			case "NSX":
+				raws = append(raws, "{}", "null", `{"policies":null}`, `{"policies":[]}`, `{"policies":[{}]}`, `{"groups":[{}],"services":[{}]}`, "garbage")
+			default:
+				raws = append(raws, "garbage\n", " \n", "[APPEND]\n")
+			}
+			for _, r := range raws {
+				s, m := run(c.model, c.dev, c.spoc, r)
+				runs++
+				record(s, m, c, c.dev, c.spoc, r)
+			}
 		}
 	}
 	// info files: garbage and truncated JSON
